@@ -185,3 +185,44 @@ extern "C" void h_cancel_handshake(void) {
   vk_assert(all_quiet(), "handlers are still queued");
   x->check();
 }
+
+// C08, exhaustion on the real client: with every identifier in use (the free list is emptied through the access idiom - 65535
+// simultaneous exchanges are out of reach otherwise) a QoS>0 publish / subscribe / unsubscribe is refused with pid_overrun and
+// writes nothing; as soon as one exchange ends (identifier k released) the next request is accepted again and uses k.
+extern "C" void h_pid_exhaustion(void) {
+  W* wp = new W(); W& w = *wp;
+  w.start(); w.connect_ok();
+  auto& alloc = (*(w.c.*stolen(t_impl{}))).*stolen(t_alloc{}); auto& v = free_ids(alloc);
+  v.clear();                                       // all 65535 identifiers are held by outstanding exchanges
+  int refused = 1 + vk_choose(2);                  // one or two requests hit the exhausted allocator
+  for (int r = 0; r < refused; r++) {
+    int writes_before = vk::world().writes_started; int a;
+    switch (vk_choose(4)) {
+      case 0: a = w.publish<qos_e::at_least_once>("t", "p"); break;
+      case 1: a = w.publish<qos_e::exactly_once>("t", "p"); break;
+      case 2: a = w.subscribe({{"f", subscribe_options{}}}); break;
+      default: a = w.unsubscribe({"f"}); break;
+    }
+    vk::drain();
+    vk_assert(w.ops[a].done == 1 && w.ops[a].ec == 103, "a request made while all 65535 identifiers are in use did not end with pid_overrun");
+    vk_assert(vk::world().writes_started == writes_before && !vk::pending_write(), "a request refused with pid_overrun put something on the wire");
+    long free_n = 0; for (size_t i = 0; i < v.size(); i++) free_n += (long)v[i].start - (long)v[i].end;
+    vk_assert(free_n == 0, "a refused request changed the set of free identifiers");
+    vk_reach("refused");
+  }
+  // a QoS 0 publish needs no identifier and still goes out
+  if (vk_choose(2)) { int z = w.publish<qos_e::at_most_once>("t", "p"); vk::drain(); auto* s = vk::pending_write(); vk_assert(s != nullptr, "QoS 0 publish is written while the identifiers are exhausted");
+                      w.finish_write(s, s->wdata.size(), {}); vk::drain(); vk_assert(w.ops[z].done == 1 && w.ops[z].ec == 0, "QoS 0 publish completes while the identifiers are exhausted"); vk_reach("qos0-unaffected"); }
+  // one exchange ends
+  uint16_t k = vk_sym_u16(); vk_assume(k >= 1);
+  alloc.free(k);
+  int b = vk_choose(2) ? w.publish<qos_e::at_least_once>("t", "p") : w.subscribe({{"f", subscribe_options{}}}); vk::drain();
+  vk_assert(!w.ops[b].done, "pid_overrun (or another immediate completion) although an identifier is free again");
+  auto* s = vk::pending_write(); vk_assert(s != nullptr, "the request made after an identifier was released is written");
+  ref::packet pk; int rv = ref::decode((const uint8_t*)s->wdata.data(), s->wdata.size(), pk); vk_assert(rv == ref::OK, "harness: decode");
+  vk_assert(pk.pid == k, "the request does not use the identifier that was released");
+  // and the allocator is exhausted again
+  int c = w.publish<qos_e::at_least_once>("t", "p"); vk::drain();
+  vk_assert(w.ops[c].done == 1 && w.ops[c].ec == 103, "a request made while all identifiers are in use again did not end with pid_overrun");
+  vk_reach("recovered");
+}
